@@ -731,8 +731,42 @@ def run_single(L, mod, shapes, case):
     k = {NAMES[n]: ctx.value(v) for n, v in c['kw']}
     if 'tup' in sig:
         ctx.tup = (sig['tup'], list(args[len(sig['pos']) - (1 if x['method'] and not x.get('recvKw') else 0):]))
+    if 'scalars' in (x.get('prime') or []):
+        # primed twin (amplified run): the same decorated function is first called with every number moved to another numeric type
+        # (0 / False / 0.0, 17 / 17.0: equal, same hash); what that call does is wiped, the real call follows and is judged as usual
+        import _twins
+        for to in ('rotate', 'bool'):
+            a2, k2 = [_twins.twin_object(v, to) for v in a], {n: _twins.twin_object(v, to) for n, v in k.items()}
+            if all(type(p) is type(q) for p, q in zip(a2, a)) and all(type(k2[n]) is type(k[n]) for n in k):
+                continue
+            try:
+                L.call_and_classify(ctx, c, fn, a2, k2, rec, x.get('flask'))
+            except BaseException:
+                pass
+            del rec[:]
+            del ctx.journal[:]
+            del ctx.loads[:]
     o, ret_ok = L.call_and_classify(ctx, c, fn, a, k, rec, x.get('flask'))
     return L.observed(ctx, o, ret_ok, rec)
+
+
+def twins(case):
+    """primed twin of a single-call case: the call is preceded by the same call with number twins (expected outcome unchanged)"""
+    import _twins
+    if case.get('m') is None or 'calls' in case['c'] or case['x'].get('prime'):
+        return []
+    c, x = case['c'], case['x']
+    ids = list(c['args']) + [v for _, v in c['kw']]
+    for i in ids:
+        r = x['lits'].get(str(i), x['lits'].get(i)) if i is not None else None
+        if r is not None:
+            try:
+                v = lit_value(r)
+            except Exception:
+                continue
+            if _twins.twin_object(v, 'rotate') != v or type(_twins.twin_object(v, 'rotate')) is not type(v) or repr(_twins.twin_object(v, 'rotate')) != repr(v):
+                return [dict(case, x=dict(x, prime=['scalars']))]
+    return []
 
 
 def run_scenario(L, mod, shapes, case):
